@@ -329,6 +329,13 @@ func (s *socket) MaybeUpgrade(transport transports.Transport) {
 		transport.Close()
 		return
 	}
+	// ... and the session may have completed an upgrade since the caller looked
+	if s.upgraded.Load() {
+		socket_log.Debug("transport had already been upgraded")
+		s.upgrading.Store(false)
+		transport.Close()
+		return
+	}
 
 	var check, cleanup func()
 	var onPacket, onError, onTransportClose, onClose events.Listener
@@ -348,10 +355,12 @@ func (s *socket) MaybeUpgrade(transport transports.Transport) {
 
 		} else if packet.UPGRADE == data.Type && s.ReadyState() != "closed" {
 			socket_log.Debug("got upgrade packet - upgrading")
+			// marked before cleanup releases the upgrading flag, so that no other
+			// candidate can slip in between the two
+			s.upgraded.Store(true)
 			cleanup()
 			s.Transport().Discard()
 
-			s.upgraded.Store(true)
 
 			s.clearTransport()
 			s.setTransport(transport)
